@@ -624,8 +624,88 @@ func decodeBothCtx(body hcl.Body, s *schema, ctx *hcl.EvalContext) string {
 		if !d2.HasErrors() {
 			r2 = dumpGo(target.Elem(), s, false)
 		}
-		return r1 + "|" + r2
+		// the tag-driven decoder once more, in two steps: blocks (and labels) first, the attributes from the left-over body
+		t3 := reflect.New(structOfSplit(s, false))
+		d3 := gohcl.DecodeBody(body, ctx, t3.Interface())
+		r3 := "ERR"
+		if !d3.HasErrors() {
+			if out, ok := dumpGoSplit(t3.Elem(), s, false, ctx); ok {
+				r3 = out
+			}
+		}
+		return r1 + "|" + r2 + "|" + r3
 	})
+}
+
+var bodyType = reflect.TypeOf((*hcl.Body)(nil)).Elem()
+
+// structOfSplit: like structOf, but the attributes are not fields: they stay in a `remain` body, decoded afterwards
+func structOfSplit(s *schema, labeled bool) reflect.Type {
+	var fs []reflect.StructField
+	i := 0
+	add := func(t reflect.Type, tag string) {
+		fs = append(fs, reflect.StructField{Name: fmt.Sprintf("F%d", i), Type: t, Tag: reflect.StructTag(`yaotl:"` + tag + `"`)})
+		i++
+	}
+	if labeled {
+		add(reflect.TypeOf(""), "label__,label")
+	}
+	for _, b := range s.blocks {
+		nt := structOfSplit(b.sch, b.labeled)
+		if b.list {
+			add(reflect.SliceOf(nt), b.ty+",block")
+		} else {
+			add(reflect.PtrTo(nt), b.ty+",block")
+		}
+	}
+	add(bodyType, ",remain")
+	return reflect.StructOf(fs)
+}
+
+func dumpGoSplit(v reflect.Value, s *schema, labeled bool, ctx *hcl.EvalContext) (string, bool) {
+	var ps []string
+	i := 0
+	next := func() reflect.Value { f := v.Field(i); i++; return f }
+	if labeled {
+		ps = append(ps, "label__="+dumpGoVal(next()))
+	}
+	var bs []string
+	for _, b := range s.blocks {
+		f := next()
+		if b.list {
+			var es []string
+			for k := 0; k < f.Len(); k++ {
+				e, ok := dumpGoSplit(f.Index(k), b.sch, b.labeled, ctx)
+				if !ok {
+					return "", false
+				}
+				es = append(es, e)
+			}
+			bs = append(bs, b.ty+"=["+strings.Join(es, ",")+"]")
+		} else if !f.IsNil() {
+			e, ok := dumpGoSplit(f.Elem(), b.sch, b.labeled, ctx)
+			if !ok {
+				return "", false
+			}
+			bs = append(bs, b.ty+"="+e)
+		}
+	}
+	rest, _ := next().Interface().(hcl.Body)
+	attrsOnly := &schema{attrs: s.attrs}
+	target := reflect.New(structOf(attrsOnly, false))
+	if rest != nil {
+		if d := gohcl.DecodeBody(rest, ctx, target.Interface()); d.HasErrors() {
+			return "", false
+		}
+	} else if len(s.attrs) > 0 {
+		return "", false
+	}
+	inner := dumpGo(target.Elem(), attrsOnly, false) // "{a=…,b=…}"
+	if inner != "{}" {
+		ps = append(ps, strings.Split(inner[1:len(inner)-1], "\x00")...)
+	}
+	ps = append(ps, bs...)
+	return "{" + strings.Join(ps, ",") + "}", true
 }
 
 func parseNative(src string) (hcl.Body, bool) {
